@@ -215,6 +215,10 @@ fn apply_real(e: Exec, c: &Call, dir: &std::path::Path) -> Exec {
 }
 
 fn gen_val(rng: &mut Rng, max: u64) -> Vec<u8> {
+    // (a handful of values recur, so that the very same name=value pair is set, overridden and set again)
+    if rng.chance(300) {
+        return rng.pick(&[&b"1"[..], b"2", b"", b"on", b"a b"]).to_vec();
+    }
     let n = rng.below(max + 1) as usize;
     match rng.below(4) {
         0 => rng.bytes_nonul(n),
@@ -417,7 +421,34 @@ fn seq_case(ctx: &mut Ctx, rng: &mut Rng, i: u64) {
     let e = real.take().unwrap();
     let rep_path = spawn::report_path(&exe);
     let _ = std::fs::remove_file(&rep_path);
+    // between building the command and running it the caller's own environment moves on: a name that was removed by
+    // env_remove (and not set again) appears in it.  Removed is removed: the child does not get it.
+    let mut late: Vec<OsString> = vec![];
+    {
+        let mut removed: Vec<Vec<u8>> = vec![];
+        for c in &calls {
+            match c {
+                Call::EnvRemove(k) => removed.push(k.clone()),
+                Call::Env(k, _) => removed.retain(|r| r != k),
+                Call::EnvExtend(l) => removed.retain(|r| !l.iter().any(|(k, _)| k == r)),
+                // after env_clear everything is absent anyway
+                _ => {}
+            }
+        }
+        for k in removed {
+            if !k.is_empty() && !k.contains(&b'=') && !k.contains(&0) && std::env::var_os(os(&k)).is_none() {
+                std::env::set_var(os(&k), "appeared-later-in-the-parent");
+                late.push(os(&k));
+            }
+        }
+        if !late.is_empty() {
+            ctx.count("commands_run_after_a_removed_name_appeared_in_the_parent", 1);
+        }
+    }
     let m = run::monitored(|| terminate(e, term));
+    for k in &late {
+        std::env::remove_var(k);
+    }
     trace.push(format!("{}()", term));
     let refused = m.panic.is_some();
     if must_refuse || conflict {
